@@ -24,24 +24,37 @@ def _is_gen_call(n):
 
 def r_seed_first(c):
     m = c.model
+    # SEED = <...>var_name_gen.add_names(...); MINT = a call of the code
+    # generation mapper instance created in the function, or of the helper
+    # functions that generate code
     specs = [
-        (LC + ".generate_loopy", ("state.var_name_gen.add_names",),
-         ("cg_mapper", "add_store")),
-        (NL + ".generate_numpy_like", ("var_name_gen.add_names",), ("cgen_mapper",)),
-        ("pytato.codegen.preprocess", ("mapper.var_name_gen.add_names",),
-         ("copy_dict_of_named_arrays",)),
+        (LC + ".generate_loopy", ("CodeGenMapper",), ("add_store",)),
+        (NL + ".generate_numpy_like", ("NumpyCodegenMapper",), ()),
+        ("pytato.codegen.preprocess", (), ("copy_dict_of_named_arrays",)),
     ]
-    for qn, seeds, mints in specs:
+    for qn, mapper_classes, mint_funcs in specs:
         fd = m.func(qn)
-        nseeds = sum(1 for x in ast.walk(fd) if isinstance(x, ast.Call)
-                     and ast.unparse(x.func) in seeds)
 
-        def cl(n, seeds=seeds, mints=mints):
+        def is_seed(x):
+            return isinstance(x, ast.Call) and isinstance(x.func, ast.Attribute) \
+                and x.func.attr == "add_names" and ast.unparse(x.func.value).split(".")[-1] \
+                == "var_name_gen"
+        nseeds = sum(1 for x in ast.walk(fd) if is_seed(x))
+        mints = set(mint_funcs)
+        for st in ast.walk(fd):
+            if isinstance(st, (ast.Assign, ast.AnnAssign)) and isinstance(st.value, ast.Call) \
+                    and isinstance(st.value.func, ast.Name) and st.value.func.id in mapper_classes:
+                tg = st.targets[0] if isinstance(st, ast.Assign) else st.target
+                if isinstance(tg, ast.Name):
+                    mints.add(tg.id)
+        if mapper_classes and len(mints) == len(mint_funcs):
+            raise AnalysisError(f"anchor vanished: {mapper_classes} instance in {qn}")
+
+        def cl(n, mints=mints, is_seed=is_seed):
             if isinstance(n, ast.Call):
-                f = ast.unparse(n.func)
-                if f in seeds:
+                if is_seed(n):
                     return "SEED"
-                if f in mints:
+                if ast.unparse(n.func) in mints:
                     return "MINT"
             return None
         ps = P.walk(fd, cl)
@@ -147,7 +160,9 @@ def _prov(m, fd, node, depth=0):
                     isinstance(t, ast.Name) and t.id == node.id
                     for t in ast.walk(st.target)):
                 it = ast.unparse(st.iter)
-                if it in ("compute_order", "sorted(expr.keys())"):
+                params_ = [a.arg for a in fd.args.args]
+                if (isinstance(st.iter, ast.Name) and phas(fd, f"{st.iter.id} = $pp.compute_order")) \
+                        or any(it == f"sorted({p_}.keys())" for p_ in params_):
                     srcs = ["OUTPUT_KEY"]
                     break
                 srcs = ["INDEX" if it.startswith(("range(", "enumerate(")) else
